@@ -36,6 +36,43 @@ def _regex_facts(pattern: str):
     return lo, hi, end_anchored
 
 
+def _regex_alphabet(pattern: str):
+    """(explicit characters, [categories]) of a pattern that is one character class repeated a fixed number of times (optionally end-anchored), else None."""
+    import re._parser as sp
+    try:
+        items = list(sp.parse(pattern))
+    except Exception:
+        return None
+    items = [it for it in items if it[0] != sp.AT]
+    if len(items) != 1 or items[0][0] not in (sp.MAX_REPEAT, sp.MIN_REPEAT):
+        return None
+    lo, hi, sub = items[0][1]
+    sub = list(sub)
+    if len(sub) != 1:
+        return None
+    op, av = sub[0]
+    chars, cats = set(), []
+    if op == sp.LITERAL:
+        chars.add(chr(av))
+    elif op == sp.IN:
+        for (o2, a2) in av:
+            if o2 == sp.LITERAL:
+                chars.add(chr(a2))
+            elif o2 == sp.RANGE:
+                chars |= {chr(c) for c in range(a2[0], a2[1] + 1)}
+            elif o2 == sp.CATEGORY:
+                cats.append(str(a2).split("_", 1)[-1].lower())
+            elif o2 == sp.NEGATE:
+                return None
+            else:
+                return None
+    elif op == sp.CATEGORY:
+        cats.append(str(av))
+    else:
+        return None
+    return chars, cats
+
+
 @rule("C03-a")
 def c03_a(ctx: Ctx):
     """Only exactly-id-named directories are jobs: pattern + re API at the listing filter constitute an exact match."""
@@ -133,11 +170,16 @@ def c03_a(ctx: Ctx):
                 out.append(ctx.ok(R, fi, n, f"pattern width is exactly JOB_ID_LENGTH={idlen}", construct=JOBDIRS + "|width"))
             else:
                 out.append(ctx.viol(R, fi, n, f"pattern matches {lo}..{hi} characters but ids have JOB_ID_LENGTH={idlen}", construct=JOBDIRS + "|width"))
-        hexonly = re.fullmatch(r"\[(a-f0-9|0-9a-f)\]\{\d+\}(\\Z|\$)?", pat) is not None
-        if hexonly:
+        alpha = _regex_alphabet(pat)
+        want = set("0123456789abcdef")
+        if alpha is None:
+            out.append(ctx.inc(R, fi, n, f"pattern {pat!r} is not a single repeated character class", construct=JOBDIRS + "|class"))
+        elif alpha[0] == want and not alpha[1]:
             out.append(ctx.ok(R, fi, n, "pattern class is lowercase hex", construct=JOBDIRS + "|class"))
         else:
-            out.append(ctx.inc(R, fi, n, f"pattern {pat!r} is not of the form [a-f0-9]{{n}}", construct=JOBDIRS + "|class"))
+            extra = "".join(sorted(alpha[0] - want))[:20] + (" + " + ", ".join(alpha[1]) if alpha[1] else "")
+            out.append(ctx.viol(R, fi, n, f"the id pattern {pat!r} also accepts {extra!r} (\\d and \\w match every Unicode digit / word character in a str pattern): a 32-character directory "
+                                "name using such characters is listed, counted and reported by check() as a job although no state point hashes to it", construct=JOBDIRS + "|class"))
         # the yield is guarded by the match
         mt = " ".join(ast.unparse(n).split())
         for y in yields:
